@@ -124,6 +124,8 @@ type VC struct {
 	obls    []*Obligation
 	fresh   int
 	allocs  []string
+	sorts   []string
+	sidx    *sliceIndex
 	allocSet map[string]bool
 	notes   []string // unmodelled constructs, havocked calls, inlined functions
 	noteSet map[string]bool
@@ -226,6 +228,9 @@ type Gen struct {
 	inlineExt map[string]bool
 	impByName map[string]*types.Package
 	lockObls  bool
+	inInit    bool
+	unstableGlobals  map[string]bool
+	unstablePointees map[string]bool
 }
 
 const intSortName = "Int"
